@@ -6,13 +6,14 @@ import numpy as np
 from .. import core, symbols
 from ..translate import genutils as tr_genutils
 from ..translate import wiring as tr_wiring
+from ..translate import buildnl as tr_buildnl
 
 ID = "C13"
 PROPS_FILE = "C13"
 RULE = ("correspondence: (a) all 16 conversion functions of stepper/generic/_utils.py vs the extracted Gen/GenericUtils.v on random dyadic inputs (exact rationals vs float64), "
         "(b) the linear operator of every stepper class vs the hand-written symbol model at every stored mode for D=1..3, L = 2*pi*q; witness: one step of each "
         "(specific, generic) pair, general vs normalized vs difficulty steppers, orders 0-4, D=1..3, rescaling invariance. Non-trivial: non-DC modes / non-empty lists; distinct by input hash.")
-TRUSTED_EXTRA = ["harness/translate/genutils.py (conversion functions) and harness/translate/wiring.py (keyword forwarding through the super().__init__ chains; Python default arguments evaluated in double precision)"]
+TRUSTED_EXTRA = ["harness/translate/genutils.py (conversion functions) and harness/translate/wiring.py (keyword forwarding through the super().__init__ chains; Python default arguments evaluated in double precision), harness/translate/buildnl.py (the constructor call returned by every _build_nonlinear_fun)"]
 ASSUMPTIONS = ["nonlinear-term scaling (beta_1 = b dt/L etc.) is checked on the real code (witness) and proved only at the level of the tableaux (h*N)",
                "the zeroth-order coefficient of generic steppers acts as D*a_0 (documented '1.nabla^0')"]
 FUNS = ["normalize_coefficients", "denormalize_coefficients", "normalize_convection_scale", "denormalize_convection_scale",
@@ -25,9 +26,10 @@ FUNS = ["normalize_coefficients", "denormalize_coefficients", "normalize_convect
 
 def translate(ctx):
     """Gen/GenericUtils.v (conversion functions) and Gen/Wiring.v (the super().__init__ chains of the Normalized* / Difficulty*
-    constructors, theorem C13_code_constructor_wiring); both are always attempted"""
+    constructors, theorem C13_code_constructor_wiring), Gen/BuildNL.v (`_build_nonlinear_fun` of every stepper class, theorem
+    C13_code_nonlinear_wiring); all are always attempted"""
     errors = []
-    for name, tr in (("genutils", tr_genutils), ("wiring", tr_wiring)):
+    for name, tr in (("genutils", tr_genutils), ("wiring", tr_wiring), ("buildnl", tr_buildnl)):
         try:
             tr.run()
         except Exception as e:
